@@ -99,3 +99,95 @@ theorem round_runs_sorted (K : ConnOps κ) (routes : List (Route κ)) (fuel : Na
           · exact hp.1.1
 
 end L4
+
+namespace L4
+variable {κ : Type}
+
+/-- every `run i cx0` event of the trace is justified: route `i` exists and its matcher sets answered `yes` on the connection
+the handlers were then invoked on (with the matching deadline cleared) -/
+def RunsOk (K : ConnOps κ) (all : List (Route κ)) (tr : List (Ev κ)) : Prop :=
+  ∀ i cx0, Ev.run i cx0 ∈ tr → ∃ r cx, all[i]? = some r ∧ cx0 = K.arm false cx ∧ anyMatch r.sets cx = .yes
+
+def PassOk (K : ConnOps κ) (all : List (Route κ)) : PassOut κ → Prop
+  | .done _ _ tr' => RunsOk K all tr'
+  | .stop tr' _ => RunsOk K all tr'
+
+theorem runsOk_append_other (K : ConnOps κ) (all : List (Route κ)) (tr extra : List (Ev κ)) (h : RunsOk K all tr)
+    (hx : ∀ i cx0, Ev.run i cx0 ∉ extra) : RunsOk K all (tr ++ extra) := by
+  intro i cx0 hm
+  rcases List.mem_append.mp hm with hm | hm
+  · exact h i cx0 hm
+  · exact absurd hm (hx i cx0)
+
+theorem run_not_mem_inner (j : Nat) (hev : List (Ev κ)) (i : Nat) (cx0 : κ) : Ev.run i cx0 ∉ hev.map (.inner j) := by
+  intro h; simp only [List.mem_map] at h; obtain ⟨e, _, he⟩ := h; cases he
+
+theorem pass_runsOk (K : ConnOps κ) (all pre rest : List (Route κ)) (hall : all = pre ++ rest) (rs : RS) (cx : κ)
+    (tr : List (Ev κ)) (h : RunsOk K all tr) : PassOk K all (pass K rest pre.length rs cx tr) := by
+  induction rest generalizing pre rs cx tr with
+  | nil => exact h
+  | cons r rest ih =>
+    have hnext : all = (pre ++ [r]) ++ rest := by rw [hall]; simp
+    have hlen : (pre ++ [r]).length = pre.length + 1 := by simp
+    have hget : all[pre.length]? = some r := by rw [hall]; simp
+    unfold pass
+    by_cases c1 : pre.length + 1 ≤ rs.lm
+    · rw [if_pos c1]; have := ih (pre ++ [r]) hnext rs cx tr h; rwa [hlen] at this
+    · rw [if_neg c1]
+      by_cases c2 : rs.status pre.length = some .notMatched ∧ pre.length + 1 ≤ rs.lnm
+      · rw [if_pos c2]; have := ih (pre ++ [r]) hnext rs cx tr h; rwa [hlen] at this
+      · rw [if_neg c2]
+        cases hm : anyMatch r.sets cx with
+        | more =>
+          simp only []
+          by_cases c3 : (!rs.needMore) = true
+          · rw [if_pos c3]; exact h
+          · rw [if_neg c3]
+            have := ih (pre ++ [r]) hnext { rs.set pre.length .needsMore with lnm := pre.length + 1 } cx tr h
+            rwa [hlen] at this
+        | fail => exact runsOk_append_other K all tr _ h (by intro i cx0 hm; simp at hm)
+        | panic => exact runsOk_append_other K all tr _ h (by intro i cx0 hm; simp at hm)
+        | no => have := ih (pre ++ [r]) hnext (rs.set pre.length .notMatched) cx tr h; rwa [hlen] at this
+        | yes =>
+          simp only []
+          have hrun : ∀ hev : List (Ev κ), RunsOk K all (tr ++ [.run pre.length (K.arm false cx)] ++ hev.map (.inner pre.length)) := by
+            intro hev
+            apply runsOk_append_other K all _ _ _ (run_not_mem_inner _ hev)
+            intro i cx0 hmem
+            rcases List.mem_append.mp hmem with hmem | hmem
+            · exact h i cx0 hmem
+            · simp only [List.mem_singleton] at hmem
+              cases hmem
+              exact ⟨r, cx, hget, rfl, hm⟩
+          split
+          · rename_i hev _; exact hrun hev
+          · rename_i hev _
+            exact runsOk_append_other K all _ _ (hrun hev) (by intro i cx0 hm; simp at hm)
+          · rename_i hev cx' _
+            have := ih (pre ++ [r]) hnext { rs.set pre.length .matched with lm := pre.length + 1, lnm := pre.length + 1 } cx' _ (hrun hev)
+            rwa [hlen] at this
+
+theorem round_runsOk (K : ConnOps κ) (routes : List (Route κ)) (fuel : Nat) (rs : RS) (cx : κ) (tr : List (Ev κ))
+    (h : RunsOk K routes tr) : RunsOk K routes (round K routes fuel rs cx tr).1 := by
+  induction fuel generalizing rs cx tr with
+  | zero => exact runsOk_append_other K routes tr _ h (by intro i cx0 hm; simp at hm)
+  | succ f ih =>
+    unfold round
+    simp only []
+    split
+    · exact runsOk_append_other K routes tr _ h (by intro i cx0 hm; simp at hm)
+    · rename_i cx1 _
+      have hp := pass_runsOk K routes [] routes rfl rs cx1 tr h
+      simp only [List.length_nil] at hp
+      cases hq : pass K routes 0 rs cx1 tr with
+      | stop tr' r => rw [hq] at hp; exact hp
+      | done rs' cx' tr' =>
+        rw [hq] at hp
+        simp only []
+        split
+        · exact hp
+        · split
+          · exact ih _ _ _ hp
+          · exact hp
+
+end L4
